@@ -174,9 +174,12 @@ package client
 // frame limit, from the session key the server returned; and exactly the handshaken connections are added.
 // (How the goroutines hand over connections and the key - channel, WaitGroup, atomic.Value - is not modelled.)
 // ---------------------------------------------------------------------------------------------
+// CreateTransport (C20): "direct" gives the TLS transport WITH the configured browser signature, "cdn" the
+// WebSocket transport with the configured URL, anything else nothing
 //@ func (TransportConfig).CreateTransport
-//@   flag trusted
-//@   ensures ret0 != nil
+//@   ensures direct: t.mode == "direct" ==> typeIs[*DirectTLS](ret0) && ret0.(*DirectTLS) != nil && ret0.(*DirectTLS).browser == t.browser
+//@   ensures cdn: t.mode == "cdn" ==> typeIs[*WSOverTLS](ret0) && ret0.(*WSOverTLS) != nil && ret0.(*WSOverTLS).wsUrl == t.wsUrl
+//@   ensures unknownModeIsNothing: t.mode != "direct" && t.mode != "cdn" ==> ret0 == nil
 //@ func MakeSession$1
 //@   requires dialer != nil
 //@   atcall Dial requires theConfiguredRemote: arg0.(string) == "tcp" && arg1.(string) == connConfig.RemoteAddr
